@@ -30,6 +30,8 @@ def wf(o):
 
 
 def init_pool(rng, nmps=2, nmpo=2, maxD=3):
+    if rng.random() < 0.25:
+        return []       # history from nothing: every object is created by a constructor step (Model/OpsX.lean)
     L = int(rng.integers(1, 5)); d = int(rng.integers(1, 3))
     qd = mpsgen.rand_qd(rng, d)
     bnd = (int(rng.integers(-1, 2)), int(rng.integers(-1, 3)))
@@ -79,8 +81,35 @@ def choose_op(rng, pool, allow_invalid=0.03):
     idx_mps = [i for i, o in enumerate(pool) if type(o).__name__ == 'MPS']
     idx_mpo = [i for i, o in enumerate(pool) if type(o).__name__ == 'MPO']
     for _ in range(50):
-        k = int(rng.integers(0, 16))
+        k = int(rng.integers(0, 21)) if len(pool) >= 3 else int(rng.integers(16, 20))
         mode = 'left' if rng.random() < 0.5 else 'right'
+        if k in (16, 17, 18) and len(pool) < 9:
+            # constructors: take the physical charges / length of an existing object most of the time (compatible operands)
+            if pool and rng.random() < 0.8:
+                ref = pool[int(rng.integers(0, len(pool)))]
+                qd = [int(x) for x in ref.qd]; L = len(ref.A)
+            else:
+                qd = [int(x) for x in mpsgen.rand_qd(rng, int(rng.integers(1, 3)))]; L = int(rng.integers(1, 4))
+            fill = [1, 0, 2.0, -0.5, 1 + 1j, 3][int(rng.integers(0, 6))]
+            if k in (16, 17):
+                bl = 1 if rng.random() > allow_invalid else 2
+                qD = [[int(rng.integers(-1, 2))] * bl] + [[int(x) for x in rng.integers(-1, 2, size=int(rng.integers(1, 3)))] for _ in range(max(L - 1, 0))] \
+                    + [[int(rng.integers(-1, 3))] * bl]
+                if L == 0 or (rng.random() < allow_invalid):
+                    qD = qD[:1] if rng.random() < 0.5 else []
+                return {'h': 'new_mps' if k == 16 else 'new_mpo', 'qd': qd, 'qD': qD, 'fill': fill}
+            if rng.random() < 0.5:
+                return {'h': 'identity', 'qd': qd, 'L': L, 'scale': [1, 2, -0.5, 1j][int(rng.integers(0, 4))]}
+            from . import oglib
+            from .props import c05
+            raw, Lg, charged = oglib.gen_layered_graph(rng, L=int(rng.integers(1, 4)))
+            o5 = c05.mpo_op(raw, rng, charged, nid_map=False, d=2)
+            return {'h': 'from_opgraph', 'graph': o5['graph'], 'qd': o5['qd'], 'opmap': o5['opmap']}
+        if k in (19, 20) and idx_mps:
+            i = int(rng.choice(idx_mps)); L = len(pool[i].A)
+            if L >= 2 or rng.random() < allow_invalid:
+                return {'h': 'resplit', 'i': i, 'site': int(rng.integers(0, max(L - 1, 1))), 'distr': int(rng.integers(0, 3)),
+                        'tol': float(rng.choice([0, 0, 0.25, 0.125]))}
         if k == 0 and idx_mps:
             return {'h': 'ortho_mps', 'i': int(rng.choice(idx_mps)), 'mode': mode}
         if k == 1 and idx_mpo:
@@ -109,7 +138,7 @@ def choose_op(rng, pool, allow_invalid=0.03):
             d = int(rng.integers(1, 3)); ns = int(rng.integers(1, 4))
             v = gen.exact_values(rng, (d ** ns,), str(rng.choice(['int', 'float', 'complex'])))
             if allow_invalid == 0.0 and not np.any(v):
-                continue    # the zero vector is outside the domain of from_vector (oracle histories)
+                pass        # (the zero vector is in the domain since the repair of F12)
             return {'h': 'from_vector', 'd': d, 'nsites': ns, 'v': [complex(x) for x in v], 'tol': float(rng.choice([0, 0, 0.25, 0.5, 0.125]))}
         if k in (11, 12, 13, 14, 15) and idx_mps and idx_mpo:
             kind = ['tdvp1', 'tdvp2', 'dmrg1', 'dmrg2', 'tdvp1'][k - 11] if k < 15 else str(rng.choice(['tdvp2', 'dmrg1', 'dmrg2']))
@@ -134,7 +163,7 @@ def choose_op(rng, pool, allow_invalid=0.03):
 
 
 INPLACE_EVO = ('tdvp1', 'tdvp2', 'dmrg1', 'dmrg2')
-INPLACE = ('ortho_mps', 'ortho_mpo', 'compress', 'zero_q') + INPLACE_EVO
+INPLACE = ('ortho_mps', 'ortho_mpo', 'compress', 'zero_q', 'resplit') + INPLACE_EVO
 
 
 def apply_op(pool, op, rec):
@@ -144,6 +173,29 @@ def apply_op(pool, op, rec):
     with kernels.patched(rec, ('bond_ops', 'mps', 'mpo')), kernels.patched_abs(rec), krylov_kernels.patched(rec):
         if h == 'from_vector':
             pool.append(ptn.MPS.from_vector(op['d'], op['nsites'], np.array(op['v']), tol=op['tol']))
+            return []
+        if h == 'new_mps':
+            pool.append(ptn.MPS(op['qd'], op['qD'], fill=op['fill']))
+            return []
+        if h == 'new_mpo':
+            pool.append(ptn.MPO(op['qd'], op['qD'], fill=op['fill']))
+            return []
+        if h == 'identity':
+            pool.append(ptn.MPO.identity(op['qd'], op['L'], scale=op['scale']))
+            return []
+        if h == 'from_opgraph':
+            from . import oglib
+            pool.append(ptn.MPO.from_opgraph(op['qd'], oglib.build_graph(op['graph']), oglib.opmap_of(op['opmap'])))
+            return []
+        if h == 'resplit':
+            psi = pool[op['i']]
+            if type(psi).__name__ != 'MPS':
+                raise TypeError('wrong class')
+            st = op['site']
+            A0, A1 = psi.A[st], psi.A[st + 1]
+            Am = ptn.merge_mps_tensor_pair(A0, A1)
+            B0, B1, qb = ptn.split_mps_tensor(Am, psi.qd, psi.qd, [psi.qD[st], psi.qD[st + 2]], ['left', 'right', 'sqrt'][op['distr']], op['tol'])
+            psi.A[st], psi.A[st + 1], psi.qD[st + 1] = B0, B1, qb
             return []
         if h in INPLACE_EVO:
             H, psi = pool[op['iH']], pool[op['i']]
@@ -241,6 +293,9 @@ def run_history(rng, nsteps, pool=None):
             enc_op['dt'] = exact.enc_scalar(enc_op['dt'])
         if 'v' in enc_op:
             enc_op['v'] = [exact.enc_scalar(x) for x in enc_op['v']]
+        for key in ('fill', 'scale'):
+            if key in enc_op:
+                enc_op[key] = exact.enc_scalar(enc_op[key])
         enc_op['kernels'] = rec.calls
         steps.append(enc_op)
         if not r['ok']:
